@@ -4,7 +4,12 @@ R03a no accepting path contradicts the precondition of a fixed-base power: the b
      tmcg_mpz_fpowm / _fspowm / _fpowm_ui is the member its table was precomputed from, or is
      guarded on the path by an equality with it (a guard establishing inequality is a contradiction),
 R03b prover/verifier duality of the I/O shapes for every prover/verifier pair,
-R03c prover and verifier hash the same argument lists."""
+R03c prover and verifier hash the same argument lists,
+R03e reject clauses of a verifier that constrain the *statement alone* (no transmitted value
+     involved) and are not in the frozen inventory: a new "differs from a specific value" clause
+     refuses the true statements that have this value whatever the honest prover does (the property
+     quantifies over every card and key) -> violation; new equalities among statement inputs
+     (consistency of caller objects) are listed as notes only."""
 import re
 from .. import ioshape
 from ..facts import walk, AnalysisBroken
@@ -53,6 +58,7 @@ def run(ctx):
     r03a(ctx)
     r03bc(ctx)
     r03d(ctx)
+    r03e(ctx)
 
 
 def class_chain(prog, cls):
@@ -272,3 +278,50 @@ def r03d(ctx):
                                     'does not: objects built from a stream and from parameters disagree, honest proofs between them fail' % (
                                         (f1 if in1 else f2)['line'], q, sub, g['line']), g)
     ctx.floor('R03d', n, 6)
+
+
+def r03e(ctx):
+    import ast
+    from . import invcheck, verifiers
+    from .. import inventory
+    prog = ctx.prog
+    ref = invcheck.load_ref()
+    sel = {f['key']: f for f, props in verifiers.selected(prog)}
+
+    def strings(x, out):
+        if isinstance(x, str):
+            out.append(x)
+        elif isinstance(x, (tuple, list)):
+            for y in x:
+                strings(y, out)
+        return out
+    n = 0
+    new = 0
+    for key, ent in ref.items():
+        f = sel.get(key)
+        if f is None or 'Verify' not in ent['q']:
+            continue
+        inv, _ = inventory.inventory(ctx, f)
+        reffps = [ast.literal_eval(it['fp']) for it in ent['items']]
+        for fp in inv:
+            k = invcheck.kind_of(fp).split(':')[-1]
+            if k not in ('eq', 'ne'):
+                continue
+            leaves = strings(fp, [])
+            if any(x.startswith('W') and x[1:2].isdigit() for x in leaves) or not any(x.startswith('P') and x[1:2].isdigit() for x in leaves):
+                continue
+            n += 1
+            if any(inventory.covers(fp, r) or inventory.covers(r, fp) for r in reffps):
+                continue
+            new += 1
+            if k == 'ne':
+                ctx.bad('R03e', 'R03e:%s:%s' % (ent['q'], invcheck.short(fp)), 'acceptance now requires a statement-derived value to differ from a specific value '
+                        '(%s), a condition on the statement alone that the confirmed protocol does not have: true statements with that value are '
+                        'refused whatever the honest prover does' % invcheck.describe(fp), f)
+                continue
+            ctx.note('R03e', 'R03e:%s:%s' % (ent['q'], invcheck.short(fp)), 'acceptance now also requires a condition on the statement alone that the '
+                     'confirmed inventory does not have: %s -- statements of that form are refused whatever the prover does' % invcheck.describe(fp), f)
+    ctx.info['R03e_statement_only_clauses'] = n
+    ctx.info['R03e_new'] = new
+    ctx.ok('R03e', 'R03e:summary', '%d statement-only (in)equalities in the verifiers, all part of the confirmed inventory' % n)
+    ctx.floor('R03e', n, 20)
